@@ -9,23 +9,110 @@ namespace Mutiny.Handles
 /-! ## ownership -/
 
 /-- control block `i` owns its pool slot: its counter is positive, or the thread that saw it reach 0 has not yet
-    given the slot back (`oa.drop.dealloc` pending) -/
+    entered `dealloc_id` (`oa.drop.dealloc` pending) -/
 def Owning (s : St) (i : Nat) : Prop :=
   i < s.cbs.length ∧ ((getCB s i).rc > 0 ∨ ∃ t, s.thr t = .dDealloc i)
 
-theorem owns_iff {s : St} (h : Inv s) (i : Nat) : Owns s i ↔ Owning s i := by
+/-- the slot a thread holds *in transit*: it is inside `dealloc_id` (destructor pending or running: `dDestroy`/`uDestroy`;
+    destructor done, free-list push pending: `dRelease`/`uRelease`) -/
+def inTransitOf (s : St) : Loc → Option Nat
+  | .dDestroy i => some (getCB s i).id
+  | .dRelease i => some (getCB s i).id
+  | .uDestroy x => some x
+  | .uRelease x => some x
+  | _ => none
+
+/-- data-level ownership = `Owning`, or the destructor of the control block's payload is about to run -/
+theorem owns_iff {s : St} (h : Inv s) (i : Nat) : Owns s i ↔ (Owning s i ∨ ∃ t, s.thr t = .dDestroy i) := by
   constructor
   · intro ho
-    refine ⟨ho.1, ?_⟩
     by_cases hz : (getCB s i).rc = 0
-    · exact Or.inr (h.ownRc i ho hz)
-    · exact Or.inl (Nat.pos_of_ne_zero hz)
-  · rintro ⟨_, hr | ⟨t, ht⟩⟩
+    · obtain ⟨t, ht⟩ := h.ownRc i ho hz
+      cases hl : s.thr t <;> simp [hl, ownTail] at ht
+      · subst ht; exact Or.inl ⟨ho.1, Or.inr ⟨t, hl⟩⟩
+      · subst ht; exact Or.inr ⟨t, hl⟩
+    · exact Or.inl ⟨ho.1, Or.inl (Nat.pos_of_ne_zero hz)⟩
+  · rintro (⟨_, hr | ⟨t, ht⟩⟩ | ⟨t, ht⟩)
     · exact h.rcOwns i hr
-    · exact h.ddOwns t i ht
+    · exact h.ddOwns t i (by simp [ht, ownTail])
+    · exact h.ddOwns t i (by simp [ht, ownTail])
+
+theorem owns_of_owning {s : St} (h : Inv s) {i : Nat} (ho : Owning s i) : Owns s i :=
+  (owns_iff h i).2 (Or.inl ho)
 
 theorem owning_not_freed {s : St} (h : Inv s) {i : Nat} (ho : Owning s i) : (getCB s i).freed = false :=
-  (h.ownOk i ((owns_iff h i).2 ho)).1
+  (h.ownOk i (owns_of_owning h ho)).1
+
+/-- a control block whose destructor is pending/running is no longer `Owning` -/
+theorem not_owning_of_destroying {s : St} (h : Inv s) {t i : Nat} (ht : s.thr t = .dDestroy i) : ¬ Owning s i := by
+  rintro ⟨_, hr | ⟨u, hu⟩⟩
+  · have := (h.tailOk t i (by simp [ht, tailOf])).2.2; omega
+  · have := h.tailUniq t u i (by simp [ht, tailOf]) (by simp [hu, tailOf])
+    subst this; rw [ht] at hu; cases hu
+
+/-- facts about a slot in transit: in range, not allocatable, not owned by anybody else; alive and not yet logged
+    while the destructor is pending, dead and logged (exactly once, see `logNodup`) afterwards -/
+theorem inTransit_ok {s : St} (h : Inv s) {t x : Nat} (ht : inTransitOf s (s.thr t) = some x) :
+    x < s.N ∧ x ∉ s.free ∧ x ∉ s.uniques ∧ (∀ i, Owning s i → (getCB s i).id ≠ x) := by
+  cases hl : s.thr t <;> simp only [hl, inTransitOf, Option.some.injEq, reduceCtorEq] at ht
+  case dDestroy i =>
+    subst ht
+    have ho := h.ddOwns t i (by simp [hl, ownTail])
+    have := h.ownOk i ho
+    refine ⟨this.2.1, this.2.2.1, this.2.2.2.1, fun j hj e => ?_⟩
+    have := h.ownInj j i (owns_of_owning h hj) ho e
+    subst this
+    exact not_owning_of_destroying h hl hj
+  case dRelease i =>
+    subst ht
+    have hr := h.relOk t i hl
+    refine ⟨hr.1, hr.2.1, hr.2.2.1, fun j hj e => ?_⟩
+    have ha := (owns_of_owning h hj).2.1
+    rw [e, hr.2.2.2] at ha; cases ha
+  case uDestroy y =>
+    subst ht
+    have := h.uOk t y (by simp [hl, uOf])
+    exact ⟨this.1, this.2.1, this.2.2, fun j hj => h.uOwn t y j (by simp [hl, uOf]) (owns_of_owning h hj)⟩
+  case uRelease y =>
+    subst ht
+    have := h.uOk t y (by simp [hl, uOf])
+    exact ⟨this.1, this.2.1, this.2.2, fun j hj => h.uOwn t y j (by simp [hl, uOf]) (owns_of_owning h hj)⟩
+
+/-- distinct threads hold distinct slots in transit -/
+theorem inTransit_inj {s : St} (h : Inv s) {t u x : Nat} (ht : inTransitOf s (s.thr t) = some x)
+    (hu : inTransitOf s (s.thr u) = some x) : t = u := by
+  have f1 := h.ddOwns t; have f2 := h.ddOwns u; have f3 := h.ownInj; have f4 := h.tailUniq t u
+  have f5 := h.relOk t; have f6 := h.relOk u; have f7 := h.uOwn t; have f8 := h.uOwn u
+  have f9 := h.relRel t u; have f10 := h.relRel u t; have f11 := h.relU t u; have f12 := h.relU u t
+  have f13 := h.uU t u x
+  cases h1 : s.thr t <;> simp only [h1, inTransitOf, Option.some.injEq, reduceCtorEq] at ht <;>
+    cases h2 : s.thr u <;> simp only [h2, inTransitOf, Option.some.injEq, reduceCtorEq] at hu <;>
+    grind [Owns, ownTail, tailOf, uOf]
+
+/-- alive / logged status of a slot in transit -/
+theorem inTransit_status {s : St} (h : Inv s) (t : Nat) :
+    (∀ i, s.thr t = .dDestroy i → s.alive (getCB s i).id = true ∧ s.slotGen (getCB s i).id = (getCB s i).gen ∧
+        (getCB s i).gen ∉ s.dropLog.map (·.2.1)) ∧
+    (∀ i, s.thr t = .dRelease i → s.alive (getCB s i).id = false ∧
+        ((getCB s i).id, (getCB s i).gen, (getCB s i).val) ∈ s.dropLog ∧
+        (s.dropLog.map (·.2.1)).count (getCB s i).gen = 1) ∧
+    (∀ x, s.thr t = .uDestroy x → s.alive x = true ∧ s.slotGen x ∉ s.dropLog.map (·.2.1)) ∧
+    (∀ x, s.thr t = .uRelease x → s.alive x = false ∧ (x, s.slotGen x, s.slot x) ∈ s.dropLog ∧
+        (s.dropLog.map (·.2.1)).count (s.slotGen x) = 1) := by
+  refine ⟨fun i hl => ?_, fun i hl => ?_, fun x hl => ?_, fun x hl => ?_⟩
+  · have ho := h.ddOwns t i (by simp [hl, ownTail])
+    have := h.aliveNotLogged _ ho.2.1
+    exact ⟨ho.2.1, ho.2.2, ho.2.2 ▸ this⟩
+  · have hr := h.relOk t i hl
+    have hlen := (h.tailOk t i (by simp [hl, tailOf])).1
+    have hm := h.deadLogged i hlen (fun ho => by have := ho.2.1; rw [hr.2.2.2] at this; cases this)
+    refine ⟨hr.2.2.2, hm, ?_⟩
+    rw [h.logNodup.count, if_pos]; exact List.mem_map.2 ⟨_, hm, rfl⟩
+  · have := h.uDesOk t x hl
+    exact ⟨this, h.aliveNotLogged x this⟩
+  · have := h.uRelOk t x hl
+    refine ⟨this.1, this.2, ?_⟩
+    rw [h.logNodup.count, if_pos]; exact List.mem_map.2 ⟨_, this.2, rfl⟩
 
 /-- a held handle (alive, lent to a call, or announced) keeps the counter positive, hence the slot owned -/
 theorem held_owning {s : St} (h : Inv s) {i : Nat}
@@ -74,62 +161,179 @@ theorem range_subset_of_nodup_full {l : List Nat} {n : Nat} (hn : l.Nodup) (hlt 
   simp only [List.length_cons, List.length_range] at this
   omega
 
-/-- the ids owned by control blocks, the ids owned by unique handles and the free ids partition `0 .. N-1` -/
+/-- split data-level owners into `Owning` control blocks and the threads whose destructor run is pending -/
+theorem split_destroying {s : St} (h : Inv s) : ∀ L : List Nat, L.Nodup → (∀ i ∈ L, Owns s i) →
+    ∃ L2 D : List Nat, L2.Nodup ∧ D.Nodup ∧ (∀ i, i ∈ L2 ↔ i ∈ L ∧ Owning s i) ∧
+      (∀ t, t ∈ D ↔ ∃ i, i ∈ L ∧ s.thr t = .dDestroy i) ∧ L2.length + D.length = L.length := by
+  intro L
+  induction L with
+  | nil => intro _ _; exact ⟨[], [], List.nodup_nil, List.nodup_nil, by simp, by simp, rfl⟩
+  | cons a L ih =>
+    intro hn ho
+    obtain ⟨hna, hnL⟩ := List.nodup_cons.1 hn
+    obtain ⟨L2, D, h1, h2, h3, h4, h5⟩ := ih hnL (fun i hi => ho i (List.mem_cons_of_mem _ hi))
+    by_cases hoa : Owning s a
+    · refine ⟨a :: L2, D, List.nodup_cons.2 ⟨fun hx => hna ((h3 a).1 hx).1, h1⟩, h2, fun i => ?_, fun t => ?_, by
+        simp only [List.length_cons]; omega⟩
+      · simp only [List.mem_cons, h3 i]
+        constructor
+        · rintro (rfl | ⟨hi, hoi⟩)
+          · exact ⟨Or.inl rfl, hoa⟩
+          · exact ⟨Or.inr hi, hoi⟩
+        · rintro ⟨rfl | hi, hoi⟩
+          · exact Or.inl rfl
+          · exact Or.inr ⟨hi, hoi⟩
+      · rw [h4 t]
+        constructor
+        · rintro ⟨i, hi, ht⟩; exact ⟨i, List.mem_cons_of_mem _ hi, ht⟩
+        · rintro ⟨i, hi, ht⟩
+          rcases List.mem_cons.1 hi with rfl | hi
+          · exact absurd hoa (not_owning_of_destroying h ht)
+          · exact ⟨i, hi, ht⟩
+    · obtain ⟨u, hu⟩ : ∃ u, s.thr u = .dDestroy a := by
+        rcases (owns_iff h a).1 (ho a (List.mem_cons_self ..)) with h' | h'
+        · exact absurd h' hoa
+        · exact h'
+      have hnu : u ∉ D := by
+        intro hx
+        obtain ⟨i, hi, hti⟩ := (h4 u).1 hx
+        rw [hu] at hti; cases hti; exact hna hi
+      refine ⟨L2, u :: D, h1, List.nodup_cons.2 ⟨hnu, h2⟩, fun i => ?_, fun t => ?_, by
+        simp only [List.length_cons]; omega⟩
+      · rw [h3 i]
+        constructor
+        · rintro ⟨hi, hoi⟩; exact ⟨List.mem_cons_of_mem _ hi, hoi⟩
+        · rintro ⟨hi, hoi⟩
+          rcases List.mem_cons.1 hi with rfl | hi
+          · exact absurd hoi hoa
+          · exact ⟨hi, hoi⟩
+      · simp only [List.mem_cons, h4 t]
+        constructor
+        · rintro (rfl | ⟨i, hi, ht⟩)
+          · exact ⟨a, Or.inl rfl, hu⟩
+          · exact ⟨i, Or.inr hi, ht⟩
+        · rintro ⟨i, rfl | hi, ht⟩
+          · exact Or.inl (h.tailUniq t u i (by simp [ht, tailOf]) (by simp [hu, tailOf]))
+          · exact Or.inr ⟨i, hi, ht⟩
+
+/-- slot held in transit by thread `t` (0 when none) -/
+def slotOf (s : St) (t : Nat) : Nat := (inTransitOf s (s.thr t)).getD 0
+
+theorem inTransit_isSome_iff (s : St) (l : Loc) :
+    (inTransitOf s l).isSome = true ↔ ((∃ i, l = .dDestroy i) ∨ transLoc l = true) := by
+  cases l <;> simp [inTransitOf, transLoc]
+
+/-- the ids owned by control blocks, the ids owned by unique handles, the ids in transit (inside `dealloc_id`) and
+    the free ids partition `0 .. N-1` -/
 theorem pool_partition {s : St} (h : Inv s) :
-    ∃ own : List Nat, own.Nodup ∧ (∀ i, i ∈ own ↔ Owning s i) ∧
-      own.length + s.uniques.length + s.free.length = s.N ∧
-      (own.map (fun i => (getCB s i).id) ++ s.uniques ++ s.free).Nodup ∧
-      (∀ x ∈ own.map (fun i => (getCB s i).id) ++ s.uniques ++ s.free, x < s.N) ∧
-      (own.map (fun i => (getCB s i).id) ++ s.uniques ++ s.free).Perm (List.range s.N) := by
-  obtain ⟨own, hn, hm, hc⟩ := h.count
-  have hmap : (own.map (fun i => (getCB s i).id)).Nodup := by
+    ∃ own tr : List Nat, own.Nodup ∧ tr.Nodup ∧ (∀ i, i ∈ own ↔ Owning s i) ∧
+      (∀ t, t ∈ tr ↔ (inTransitOf s (s.thr t)).isSome = true) ∧
+      own.length + s.uniques.length + tr.length + s.free.length = s.N ∧
+      (own.map (fun i => (getCB s i).id) ++ s.uniques ++ tr.map (slotOf s) ++ s.free).Nodup ∧
+      (∀ x ∈ own.map (fun i => (getCB s i).id) ++ s.uniques ++ tr.map (slotOf s) ++ s.free, x < s.N) ∧
+      (own.map (fun i => (getCB s i).id) ++ s.uniques ++ tr.map (slotOf s) ++ s.free).Perm (List.range s.N) := by
+  obtain ⟨a, b, ⟨own0, hn0, hm0, hl0⟩, ⟨tr0, hnt0, hmt0, hlt0⟩, hc⟩ := h.count
+  obtain ⟨own, D, h1, h2, h3, h4, h5⟩ := split_destroying h own0 hn0 (fun i hi => (hm0 i).1 hi)
+  have hown : ∀ i, i ∈ own ↔ Owning s i := fun i =>
+    ⟨fun hi => ((h3 i).1 hi).2, fun ho => (h3 i).2 ⟨(hm0 i).2 (owns_of_owning h ho), ho⟩⟩
+  have hD : ∀ t, t ∈ D ↔ ∃ i, s.thr t = .dDestroy i := fun t =>
+    ⟨fun ht => by obtain ⟨i, _, hi⟩ := (h4 t).1 ht; exact ⟨i, hi⟩,
+     fun ⟨i, hi⟩ => (h4 t).2 ⟨i, (hm0 i).2 (h.ddOwns t i (by simp [hi, ownTail])), hi⟩⟩
+  have htr : ∀ t, t ∈ D ++ tr0 ↔ (inTransitOf s (s.thr t)).isSome = true := by
+    intro t
+    rw [List.mem_append, hD t, hmt0 t, inTransit_isSome_iff]
+  have hntr : (D ++ tr0).Nodup := by
+    rw [List.nodup_append]
+    refine ⟨h2, hnt0, fun x hx y hy e => ?_⟩
+    subst e
+    obtain ⟨i, hi⟩ := (hD x).1 hx
+    have := (hmt0 x).1 hy
+    simp [hi, transLoc] at this
+  have hslot : ∀ t, t ∈ D ++ tr0 → inTransitOf s (s.thr t) = some (slotOf s t) := by
+    intro t ht
+    have := (htr t).1 ht
+    unfold slotOf
+    cases hx : inTransitOf s (s.thr t) with
+    | none => rw [hx] at this; cases this
+    | some x => rfl
+  have hmapo : (own.map (fun i => (getCB s i).id)).Nodup := by
     unfold List.Nodup
     rw [List.pairwise_map]
-    refine List.Pairwise.imp_of_mem ?_ hn
-    intro a b ha hb hab e
-    exact hab (h.ownInj a b ((hm a).1 ha) ((hm b).1 hb) e)
-  have hnd : (own.map (fun i => (getCB s i).id) ++ s.uniques ++ s.free).Nodup := by
-    rw [List.nodup_append, List.nodup_append]
-    refine ⟨⟨hmap, h.uniqNodup, ?_⟩, h.freeNodup, ?_⟩
-    · intro a ha b hb e
-      obtain ⟨i, hi, rfl⟩ := List.mem_map.1 ha
-      exact (h.ownOk i ((hm i).1 hi)).2.2.2.1 (e ▸ hb)
-    · intro a ha b hb e
-      rcases List.mem_append.1 ha with ha | ha
-      · obtain ⟨i, hi, rfl⟩ := List.mem_map.1 ha
-        exact (h.ownOk i ((hm i).1 hi)).2.2.1 (e ▸ hb)
-      · exact (h.uniqOk a ha).2.1 (e ▸ hb)
-  have hlt : ∀ x ∈ own.map (fun i => (getCB s i).id) ++ s.uniques ++ s.free, x < s.N := by
+    refine List.Pairwise.imp_of_mem ?_ h1
+    intro x y hx hy hxy e
+    exact hxy (h.ownInj x y (owns_of_owning h ((hown x).1 hx)) (owns_of_owning h ((hown y).1 hy)) e)
+  have hmapt : ((D ++ tr0).map (slotOf s)).Nodup := by
+    unfold List.Nodup
+    rw [List.pairwise_map]
+    refine List.Pairwise.imp_of_mem ?_ hntr
+    intro x y hx hy hxy e
+    exact hxy (inTransit_inj h (hslot x hx) (e ▸ hslot y hy))
+  have hnd : (own.map (fun i => (getCB s i).id) ++ s.uniques ++ (D ++ tr0).map (slotOf s) ++ s.free).Nodup := by
+    rw [List.nodup_append, List.nodup_append, List.nodup_append]
+    refine ⟨⟨⟨hmapo, h.uniqNodup, ?_⟩, hmapt, ?_⟩, h.freeNodup, ?_⟩
+    · intro x hx y hy e
+      obtain ⟨i, hi, rfl⟩ := List.mem_map.1 hx
+      exact (h.ownOk i (owns_of_owning h ((hown i).1 hi))).2.2.2.1 (e ▸ hy)
+    · intro x hx y hy e
+      obtain ⟨t, ht, rfl⟩ := List.mem_map.1 hy
+      have hok := inTransit_ok h (hslot t ht)
+      rcases List.mem_append.1 hx with hx | hx
+      · obtain ⟨i, hi, rfl⟩ := List.mem_map.1 hx
+        exact hok.2.2.2 i ((hown i).1 hi) e
+      · exact hok.2.2.1 (e ▸ hx)
+    · intro x hx y hy e
+      rcases List.mem_append.1 hx with hx | hx
+      · rcases List.mem_append.1 hx with hx | hx
+        · obtain ⟨i, hi, rfl⟩ := List.mem_map.1 hx
+          exact (h.ownOk i (owns_of_owning h ((hown i).1 hi))).2.2.1 (e ▸ hy)
+        · exact (h.uniqOk x hx).2.1 (e ▸ hy)
+      · obtain ⟨t, ht, rfl⟩ := List.mem_map.1 hx
+        exact (inTransit_ok h (hslot t ht)).2.1 (e ▸ hy)
+  have hlt : ∀ x ∈ own.map (fun i => (getCB s i).id) ++ s.uniques ++ (D ++ tr0).map (slotOf s) ++ s.free,
+      x < s.N := by
     intro x hx
     rcases List.mem_append.1 hx with hx | hx
     · rcases List.mem_append.1 hx with hx | hx
-      · obtain ⟨i, hi, rfl⟩ := List.mem_map.1 hx
-        exact (h.ownOk i ((hm i).1 hi)).2.1
-      · exact (h.uniqOk x hx).1
+      · rcases List.mem_append.1 hx with hx | hx
+        · obtain ⟨i, hi, rfl⟩ := List.mem_map.1 hx
+          exact (h.ownOk i (owns_of_owning h ((hown i).1 hi))).2.1
+        · exact (h.uniqOk x hx).1
+      · obtain ⟨t, ht, rfl⟩ := List.mem_map.1 hx
+        exact (inTransit_ok h (hslot t ht)).1
     · exact h.freeLt x hx
-  have hlen : (own.map (fun i => (getCB s i).id) ++ s.uniques ++ s.free).length = s.N := by
-    simp only [List.length_append, List.length_map]; exact hc
-  refine ⟨own, hn, fun i => (hm i).trans (owns_iff h i), hc, hnd, hlt, ?_⟩
+  have hcount : own.length + s.uniques.length + (D ++ tr0).length + s.free.length = s.N := by
+    simp only [List.length_append]; omega
+  have hlen : (own.map (fun i => (getCB s i).id) ++ s.uniques ++ (D ++ tr0).map (slotOf s) ++ s.free).length
+      = s.N := by
+    simp only [List.length_append, List.length_map] at hcount ⊢; exact hcount
+  refine ⟨own, D ++ tr0, h1, hntr, hown, htr, hcount, hnd, hlt, ?_⟩
   rw [List.perm_ext_iff_of_nodup hnd List.nodup_range]
-  intro a
+  intro x
   constructor
-  · intro ha; exact List.mem_range.2 (hlt a ha)
-  · intro ha; exact range_subset_of_nodup_full hnd hlt hlen a (List.mem_range.1 ha)
-
+  · intro hx; exact List.mem_range.2 (hlt x hx)
+  · intro hx; exact range_subset_of_nodup_full hnd hlt hlen x (List.mem_range.1 hx)
 
 /-! ## frame facts (hold in every state) -/
 
 theorem slot_step (s : St) (t : Nat) : (step s t).slot = s.slot := by
   cases ht : s.thr t <;> simp only [step, ht] <;> (try split) <;> rfl
 
-theorem alive_step_of_ne (s : St) (t : Nat) (hd : ∀ i, s.thr t ≠ .dDealloc i) : (step s t).alive = s.alive := by
-  cases ht : s.thr t <;> simp only [step, ht] <;> (try split) <;> first | rfl | exact absurd ht (hd _)
+/-- `alive` changes only at a destructor step (`pa.dealloc.drop`) -/
+theorem alive_step_of_ne (s : St) (t : Nat) (hd : ∀ i, s.thr t ≠ .dDestroy i) (hu : ∀ x, s.thr t ≠ .uDestroy x) :
+    (step s t).alive = s.alive := by
+  cases ht : s.thr t <;> simp only [step, ht] <;> (try split) <;>
+    first | rfl | exact absurd ht (hd _) | exact absurd ht (hu _)
 
-theorem free_step_of_ne (s : St) (t : Nat) (hd : ∀ i, s.thr t ≠ .dDealloc i) : (step s t).free = s.free := by
-  cases ht : s.thr t <;> simp only [step, ht] <;> (try split) <;> first | rfl | exact absurd ht (hd _)
+/-- `free` grows only at a release step (`pa.dealloc.free`) -/
+theorem free_step_of_ne (s : St) (t : Nat) (hd : ∀ i, s.thr t ≠ .dRelease i) (hu : ∀ x, s.thr t ≠ .uRelease x) :
+    (step s t).free = s.free := by
+  cases ht : s.thr t <;> simp only [step, ht] <;> (try split) <;>
+    first | rfl | exact absurd ht (hd _) | exact absurd ht (hu _)
 
-theorem dropLog_step_of_ne (s : St) (t : Nat) (hd : ∀ i, s.thr t ≠ .dDealloc i) : (step s t).dropLog = s.dropLog := by
-  cases ht : s.thr t <;> simp only [step, ht] <;> (try split) <;> first | rfl | exact absurd ht (hd _)
+theorem dropLog_step_of_ne (s : St) (t : Nat) (hd : ∀ i, s.thr t ≠ .dDestroy i) (hu : ∀ x, s.thr t ≠ .uDestroy x) :
+    (step s t).dropLog = s.dropLog := by
+  cases ht : s.thr t <;> simp only [step, ht] <;> (try split) <;>
+    first | rfl | exact absurd ht (hd _) | exact absurd ht (hu _)
 
 theorem N_step (s : St) (t : Nat) : (step s t).N = s.N := by
   cases ht : s.thr t <;> simp only [step, ht] <;> (try split) <;> rfl
@@ -206,13 +410,14 @@ theorem slot_apply_of_not_free (s : St) (a : Act) (id : Nat) (h : id ∉ s.free)
   | derefUnique t i => simp only [apply]; split <;> rfl
   | intoArc t i => simp only [apply]; split <;> rfl
 
-/-- the destructor log grows only at an `oa.drop.dealloc` step or a `dropUnique`, by the entry of that very slot -/
+/-- the destructor log grows only at a destructor step (`pa.dealloc.drop`: `dDestroy` / `uDestroy`), by the entry of
+    that very slot -/
 theorem dropLog_apply (s : St) (a : Act) :
     (apply s a).dropLog = s.dropLog ∨
-    (∃ t i, a = .step t ∧ s.thr t = .dDealloc i ∧
+    (∃ t i, a = .step t ∧ s.thr t = .dDestroy i ∧
         (apply s a).dropLog = s.dropLog ++ [((getCB s i).id, s.slotGen (getCB s i).id, s.slot (getCB s i).id)]) ∨
-    (∃ t id, a = .dropUnique t id ∧ s.thr t = .idle ∧ id ∈ s.uniques ∧
-        (apply s a).dropLog = s.dropLog ++ [(id, s.slotGen id, s.slot id)]) := by
+    (∃ t x, a = .step t ∧ s.thr t = .uDestroy x ∧
+        (apply s a).dropLog = s.dropLog ++ [(x, s.slotGen x, s.slot x)]) := by
   cases a with
   | newArc t v k =>
     left; simp only [apply]
@@ -229,15 +434,14 @@ theorem dropLog_apply (s : St) (a : Act) :
       | cons x rest => rw [allocWrite_cons v hf]; rfl
     · rfl
   | step t =>
-    by_cases hd : ∃ i, s.thr t = .dDealloc i
+    by_cases hd : ∃ i, s.thr t = .dDestroy i
     · obtain ⟨i, hi⟩ := hd
       right; left; exact ⟨t, i, rfl, hi, by simp only [apply, step, hi]; rfl⟩
-    · left; exact dropLog_step_of_ne s t (fun i hi => hd ⟨i, hi⟩)
-  | dropUnique t id =>
-    simp only [apply]
-    split
-    · next hc => right; right; exact ⟨t, id, rfl, hc.1, hc.2, rfl⟩
-    · left; rfl
+    · by_cases hu : ∃ x, s.thr t = .uDestroy x
+      · obtain ⟨x, hx⟩ := hu
+        right; right; exact ⟨t, x, rfl, hx, by simp only [apply, step, hx]; rfl⟩
+      · left; exact dropLog_step_of_ne s t (fun i hi => hd ⟨i, hi⟩) (fun x hx => hu ⟨x, hx⟩)
+  | dropUnique t id => left; simp only [apply]; split <;> rfl
   | ack t => left; simp only [apply]; split <;> rfl
   | clone t i => left; simp only [apply]; split <;> rfl
   | incRefs t i k => left; simp only [apply]; split <;> rfl
@@ -247,7 +451,6 @@ theorem dropLog_apply (s : St) (a : Act) :
   | deref t i => left; simp only [apply]; split <;> rfl
   | derefUnique t i => left; simp only [apply]; split <;> rfl
   | intoArc t i => left; simp only [apply]; split <;> rfl
-
 
 /-! ## state extensionality through `getCB` -/
 
@@ -399,6 +602,30 @@ theorem newArc_eq {s : St} {t : Nat} (v : Nat) {k x : Nat} {rest : List Nat} (ht
 theorem newArc_none {s : St} {t : Nat} (v : Nat) {k : Nat} (ht : s.thr t = .idle) (hk : k > 0) (hf : s.free = []) :
     apply s (.newArc t v k) = setThr s t (.done .none) := by
   simp only [apply, ht, hk, and_self, if_true, allocWrite_nil v hf]
+
+theorem dropUnique_eq {s : St} {t id : Nat} (ht : s.thr t = .idle) (hm : id ∈ s.uniques) :
+    apply s (.dropUnique t id) = setThr (withUniques s (s.uniques.erase id)) t (.uDestroy id) := by
+  simp only [apply, ht, hm, and_self, if_true]; rfl
+
+theorem step_uDestroy_eq {s : St} {t x : Nat} (h : s.thr t = .uDestroy x) :
+    apply s (.step t) = setThr (destroy s x) t (.uRelease x) := by simp only [apply, step, h]
+
+theorem step_uRelease_eq {s : St} {t x : Nat} (h : s.thr t = .uRelease x) :
+    apply s (.step t) = setThr (release s x) t (.done .unit) := by simp only [apply, step, h]
+
+/-- a complete `dealloc` of a unique handle's slot (call, destructor, free-list push), run without interleaving, is the
+    atomic `dealloc` of the coarser model: destructor logged, slot dead, id appended to the free list -/
+theorem dropUnique_complete (s : St) (t id : Nat) (ht : s.thr t = .idle) (hm : id ∈ s.uniques) :
+    run s [.dropUnique t id, .step t, .step t] =
+      setThr (withUniques (dealloc s id) (s.uniques.erase id)) t (.done .unit) := by
+  simp only [run_cons, run_nil]
+  rw [dropUnique_eq ht hm,
+    step_uDestroy_eq (s := setThr (withUniques s (s.uniques.erase id)) t (.uDestroy id)) (x := id) (by simp),
+    step_uRelease_eq (s := setThr (destroy (setThr (withUniques s (s.uniques.erase id)) t (.uDestroy id)) id) t
+      (.uRelease id)) (x := id) (by simp)]
+  apply St.ext' <;> (try rfl)
+  case hcb => intro j; rfl
+  case hthr => intro u; simp only [thr_setThr, thr_release, thr_destroy]; split <;> rfl
 
 /-- a thread allocating alone pops the free list front to back -/
 theorem solo_allocs (t : Nat) (vs : List Nat) : ∀ (s : St) (l rest : List Nat), s.thr t = .idle →
